@@ -466,6 +466,7 @@ def _run(pid, tier, a, mod, scratch, t0):
             "anchor_functions_entered": anchors,
             "library_functions_entered": len(reached),
             "library_calls_observed": sum(reached.values()),
+            "library_function_names": sorted(reached),
             "most_entered_library_functions": dict(sorted(reached.items(), key=lambda kv: -kv[1])[:25]),
             "shards": nshards,
             "known_finding_hits": {m: len(v) for m, v in kf_hits.items()},
